@@ -2463,7 +2463,9 @@ class SemanticAnalyzer(
     ) -> tuple[str, TypeVarLikeExpr] | None:
         assert not is_unpacked or not is_typealias_param, "Mutually exclusive conditions"
         sym = self.lookup_qualified(t.name, t)
-        if sym and isinstance(sym.node, PlaceholderNode):
+        if sym and isinstance(sym.node, PlaceholderNode) and not self.final_iteration:
+            # In the final iteration this is a cyclic definition, the lookup already
+            # reported it (and we must not defer anymore).
             self.record_incomplete_ref()
         if not is_unpacked and sym and isinstance(sym.node, ParamSpecExpr):
             if sym.fullname and not self.tvar_scope.allow_binding(sym.fullname):
